@@ -19,6 +19,8 @@ import ReuseVerif.Lemmas.C02Lines
 import ReuseVerif.Lemmas.C02TailSafe
 import ReuseVerif.Lemmas.C02Copyright
 import ReuseVerif.Lemmas.C02Extract
+import ReuseVerif.Lemmas.C02Blocks
+import ReuseVerif.Theorems.C12
 import ReuseVerif.Theorems.C20
 
 namespace C02
@@ -674,5 +676,69 @@ example : containsSnippet (encodeUtf8 (infoTextOf
   rcases hl with rfl | rfl
   · exact C02L.infoLine_ok_of_syn _ _ [] (by decide +kernel)
   · exact C02L.infoLine_ok_of_syn _ _ [] (by decide +kernel)
+
+/-! ### ignore blocks -/
+
+/-- **What `filter_ignore_block` leaves of a text with blocks** (composition with C12: `C12_block`, `C12_unclosed`,
+    `C12_stray_end`, i.e. `C12_filter_eq_spec`): visible text `a0`, any number of closed blocks each followed by visible
+    text, possibly a last block that is never closed — no start marker in a visible part, no end marker in a hidden
+    part, hidden parts otherwise arbitrary.  What remains is the visible parts glued together. -/
+theorem C02_blocks_filter (a0 : Text) (bs : List (Text × Text)) (o : Option Text) (h : chunksOK a0 bs o = true) :
+    filterIgnore (blocksText a0 bs o) = visibleText a0 bs := by
+  induction bs generalizing a0 with
+  | nil =>
+    simp only [chunksOK, List.all_nil, Bool.and_true, Bool.and_eq_true, Option.isNone_iff_eq_none] at h
+    cases o with
+    | none => exact C12.C12_stray_end a0 h.1
+    | some b =>
+      simp only [Option.isNone_iff_eq_none] at h
+      exact C12.C12_unclosed a0 b (C02L.findStart_at a0 b h.1) h.2
+  | cons p rest ih =>
+    obtain ⟨b, a⟩ := p
+    simp only [chunksOK, List.all_cons, Bool.and_eq_true, Option.isNone_iff_eq_none] at h
+    obtain ⟨⟨ha0, ⟨hb, ha⟩, hrest⟩, ho⟩ := h
+    have h1 : findSub Generated.ignoreStart (a0 ++ Generated.ignoreStart ++ b ++ Generated.ignoreEnd ++ blocksText a rest o) =
+        some a0.length := by
+      have := C02L.findStart_at a0 (b ++ Generated.ignoreEnd ++ blocksText a rest o) ha0
+      simpa [List.append_assoc] using this
+    have h2 := C02L.findEnd_at b (blocksText a rest o) hb
+    show filterIgnore (a0 ++ Generated.ignoreStart ++ b ++ Generated.ignoreEnd ++ blocksText a rest o) = a0 ++ visibleText a rest
+    rw [C12.C12_block a0 b _ h1 h2, ih a (by
+      simp only [chunksOK, Bool.and_eq_true, Option.isNone_iff_eq_none]
+      exact ⟨⟨ha, hrest⟩, ho⟩)]
+
+/-- **Tag lines inside ignore blocks contribute nothing, those outside do.**  For a text with blocks whose visible
+    parts, glued together, form a text of well-formed lines (`InfoLine.ok`, as in `C02_extract_exact`; the seam lines —
+    what stands before a start marker glued to what stands after the matching end marker — are lines of it), whatever
+    the hidden parts hold (licence lines, notices, contributors, further start markers): the result is exactly what is
+    planted in the visible lines. -/
+theorem C02_extract_exact_with_blocks (endRe : Re) (hG : EndGuarded endRe)
+    (a0 : Text) (bs : List (Text × Text)) (o : Option Text) (hch : chunksOK a0 bs o = true)
+    (ls : List InfoLine) (hvis : visibleText a0 bs = infoTextOf ls) (hok : ∀ l ∈ ls, l.ok endRe = true) :
+    extractRawWith endRe (blocksText a0 bs o) = plantedInfo ls := by
+  rw [C02L.extractRawWith_congr endRe (t' := infoTextOf ls), C02_extract_exact endRe hG ls hok]
+  rw [C02_blocks_filter a0 bs o hch, hvis, filterIgnore_none (C02L.infoText_noIgnore ls hok)]
+
+/-- the hypotheses are satisfiable:
+    `# SPDX-License-Identifier: MIT` / `# REUSE-IgnoreStart` / `# SPDX-License-Identifier: GPL-3.0-only` /
+    `# SPDX-FileCopyrightText: 2001 Hidden` / `# REUSE-IgnoreEnd` / `// SPDX-FileContributor: Alice` /
+    `# REUSE-IgnoreStart` / `SPDX-License-Identifier: Unseen` -/
+example : extractRawWith Generated.endRe (blocksText "# SPDX-License-Identifier: MIT\n# ".toList
+      [("\n# SPDX-License-Identifier: GPL-3.0-only\n# SPDX-FileCopyrightText: 2001 Hidden\n# ".toList,
+        "\n// SPDX-FileContributor: Alice\n# ".toList)]
+      (some "\nSPDX-License-Identifier: Unseen\n".toList)) =
+    { lic := ["MIT".toList], cpr := [], con := ["Alice".toList] } := by
+  rw [C02_extract_exact_with_blocks Generated.endRe C02_end_guarded _ _ _ (by decide +kernel)
+    [.lic ⟨"# ".toList, " ".toList, "MIT".toList, []⟩, .other "# ".toList,
+     .con ⟨"// ".toList, " ".toList, "Alice".toList, []⟩, .other "# ".toList] (by decide +kernel)
+    (by
+      intro l hl
+      simp only [List.mem_cons, List.not_mem_nil, or_false] at hl
+      rcases hl with rfl | rfl | rfl | rfl
+      · exact C02L.infoLine_ok_of_syn _ _ [] (by decide +kernel)
+      · exact C02L.infoLine_ok_of_syn _ _ [] (by decide +kernel)
+      · exact C02L.infoLine_ok_of_syn _ _ [] (by decide +kernel)
+      · exact C02L.infoLine_ok_of_syn _ _ [] (by decide +kernel))]
+  decide +kernel
 
 end C02
